@@ -269,7 +269,8 @@ class XPathNode:
                     if c.name == child.name:
                         pos += 1
                 elif isinstance(c, child.__class__):
-                    pos += 1
+                    if not isinstance(c, ProcessingInstructionNode) or c.name == child.name:
+                        pos += 1
                 if c is child:
                     break
         return pos
